@@ -180,7 +180,7 @@ pub fn run(ctx: &Ctx) {
         for short inputs every position's value must be the combined hash of SOME l-subsequence (public API only); (ii) the set of (element, occurrence-number) pairs selected per position is the same for the sequence and its permutation; (iii) for l = 1 the signature is identical under the permutation; \
         (iv) a second call with the same data gives the same signature. Non-trivial = the permutation changes the sequence and it is longer than l.");
     super::run_fixed_tier(ctx, replay);
-    let (cases, max_len, max_l) = ctx.tier.pick((60_000, 12, 4), (1_500_000, 30, 8));
+    let (cases, max_len, max_l) = ctx.tier.pick((400_000, 12, 4), (4_000_000, 30, 8));
     ctx.drive("selection", cases, 16, 3000, || strategy(max_len, max_l), eval);
 }
 
